@@ -8,6 +8,6 @@ for k in 1 2 3; do
   mkdir -p $dest
   cp $d/patch.diff $d/demo.py $dest/ 2>/dev/null
   cp $d/notes.txt $dest/notes.txt 2>/dev/null
-  /verif/tools/seedtest.py $d/patch.diff $d/demo.py $pid $tier > $dest/result.$tier.json 2>&1
-  echo "== $pid-$k"; grep -E '"tests"|demo_|"detected"|"violations"|summary' -A0 $dest/result.$tier.json | head -8
+  /verif/tools/seedtest.py $d/patch.diff $d/demo.py $pid $tier > $dest/result.$pid.$tier.json 2>&1
+  echo "== $pid-$k"; grep -E '"tests"|demo_|"detected"|"violations"|summary' -A0 $dest/result.$pid.$tier.json | head -8
 done
